@@ -318,6 +318,8 @@ def m_e2e(ctx, case):
     except StopRun:
         pass
     except BaseException as e:  # noqa
+        if type(e).__name__ == "CaseTimeout":
+            raise   # a hang is reported as inconclusive by the runner, never as a verdict
         err = "%s: %s" % (type(e).__name__, str(e)[:100])
     finally:
         try:
